@@ -499,3 +499,16 @@ def RtCtx.idxFreeCheck (c : RtCtx) : Bool :=
   treeIdxFree c.startTree
 
 end Nmfu
+
+namespace Nmfu
+
+/-- Per-machine check for C10: every FAIL that `end()` can report leaves the state struct in the
+    generic fail state (or outside the table, which `feed` and `end` answer with FAIL as well). -/
+def Machine.endFailOK (M : Machine) (o : SemOpts) : Bool :=
+  (List.range M.states.size).all fun s =>
+    (M.call o s symEnd).paths.all fun p =>
+      match p.2 with
+      | .ret code st _ => code != "FAIL" || decide (st < 0) || decide (st.toNat ≥ M.states.size) || (M.st st.toNat).kind == .fail
+      | _ => true
+
+end Nmfu
